@@ -24,7 +24,8 @@ def plan(rng, tier):
                 # the aligned frame for every value; the frame with the open type one bit off for the exact multiples (and all in thorough)
                 flags = [-1] + ([rng.choice([0, 1])] if (L % 16384 == 0 or not q) else [])
                 for flag in flags:
-                    model = flag < 0 and kind != "bits" and (L <= 32769 if q else True)
+                    # the model driver needs ~0.25 s per 16K octets: in quick the first boundary in full, the exact multiples by the OCTET STRING row
+                    model = flag < 0 and kind != "bits" and (L <= 16385 or (L % 16384 == 0 and L <= 49152 and kind == "oct") if q else True)
                     cases.append((kind, n, L, flag, rng.choice([0, 0x5a, 0x7f, 1]), 1 + rng.below(1 << 20), model))
     # small neighbours: the one-octet / two-octet determinant switch of the open type itself
     for L in (1, 2, 127, 128, 129):
